@@ -426,6 +426,25 @@ fn op_encode(c: &Value, ev: &mut Map<String, Value>) -> Result<(), String> {
             },
         );
     }
+    if let Some(fill) = c.get("prefix_fill").filter(|x| !x.is_null()) {
+        // a VecWriter that really holds `len` octets (all equal to `byte`, capacity exactly full): too large to log,
+        // so the harness itself checks that they are untouched and reports only what was appended
+        let n = fill["len"].as_u64().unwrap_or(0) as usize;
+        let b = fill["byte"].as_u64().unwrap_or(0) as u8;
+        let mut w0 = VecWriter::new();
+        let o = guarded(|| write_val(&val, &mut w0));
+        ev.insert("solo".into(), match o { Ok(()) => json!({"t": "ok", "v": bytes_json(&w0.data)}), Err(p) => p });
+        let mut w = VecWriter::new();
+        w.data = vec![b; n];
+        let o = guarded(|| write_val(&val, &mut w));
+        let intact = w.data.len() >= n && w.data[..n].iter().all(|x| *x == b);
+        ev.insert("prefix_ok".into(), json!(intact));
+        ev.insert("out".into(), match o {
+            Ok(()) => json!({"t": "ok", "v": bytes_json(if w.data.len() >= n { &w.data[n..] } else { &[] })}),
+            Err(p) => p,
+        });
+        return Ok(());
+    }
     match wr {
         "vec" => {
             let mut w = VecWriter::new();
@@ -809,6 +828,7 @@ fn op_enum_map(c: &Value, ev: &mut Map<String, Value>) -> Result<(), String> {
     let f6: u8 = c["f6"].as_u64().map(|x| x as u8).unwrap_or(1);
     let after: Vec<u8> = if c["after"].is_null() { Vec::new() } else { json_bytes(&c["after"])? };
     let n_after = c["n_after"].as_u64().unwrap_or(0) as usize;
+    let ver: Option<u8> = c["ver"].as_u64().map(|x| x as u8);
     let o = guarded(|| {
         let mut acc = Vec::new();
         let mut tested = 0u64;
@@ -867,8 +887,14 @@ fn op_enum_map(c: &Value, ev: &mut Map<String, Value>) -> Result<(), String> {
                             let n = 12 + body.len();
                             let mut w = vec![0x13u8, 0x20, (n >> 8) as u8, n as u8, 0, 1, 0, 2, 0, 3, 0, 4];
                             w.extend_from_slice(&body);
+                            // (optionally another version nibble with every check off: what a disabled version check
+                            //  lets through must not change which codes are assigned)
+                            if let Some(v) = ver {
+                                w[1] = (w[1] & 0x0f) | (v << 4);
+                            }
+                            let opts = if ver.is_some() { json!([false, false, false]) } else { json!([true, true, true]) };
                             let mut r = SliceReader::from(&w[..]);
-                            match Message::try_read_validate(&mut r, opts_from(&json!([true, true, true]))) {
+                            match Message::try_read_validate(&mut r, opts_from(&opts)) {
                                 Ok(Message::Control(m)) => {
                                     let skip = if mt == 0 { 0 } else { 1 };
                                     let expect = 1 + n_after;
@@ -1110,6 +1136,116 @@ fn op_bitmask(c: &Value, ev: &mut Map<String, Value>) -> Result<(), String> {
     Ok(())
 }
 
+/// C17 over ALL 2^32 wire words of one bitmask kind (in `chunks` parallel threads): the two accessors must equal
+/// the bits the constructor sets, and decode-then-encode must give the word back.  Reports the constructor words
+/// (so that the specification can check them against the pinned layout) and the first words that fail.
+fn op_bitmask_sweep(c: &Value, ev: &mut Map<String, Value>) -> Result<(), String> {
+    let kind = c["kind"].as_str().ok_or("kind")?.to_string();
+    let lo = c["lo"].as_u64().unwrap_or(0);
+    let mut hi = c["hi"].as_u64().unwrap_or(0xffff_ffff);
+    // (the build with debug assertions is several times slower: it takes the first 2^dev_span_log2 words of the range)
+    if cfg!(debug_assertions) {
+        if let Some(k) = c["dev_span_log2"].as_u64() {
+            hi = hi.min(lo + (1u64 << k) - 1);
+        }
+    }
+    let threads = c["threads"].as_u64().unwrap_or(16).max(1);
+    let o = guarded(|| -> Result<(Vec<Value>, Vec<u32>, u64), String> {
+        macro_rules! go {
+            ($ty:ident, $first:ident, $second:ident) => {{
+                let word_of = |x: types::$ty| -> u32 {
+                    let mut w = VecWriter::new();
+                    AVP::$ty(x).write(&mut w);
+                    let n = w.data.len();
+                    u32::from_be_bytes([w.data[n - 4], w.data[n - 3], w.data[n - 2], w.data[n - 1]])
+                };
+                let wa = word_of(types::$ty::new(true, false));
+                let wb = word_of(types::$ty::new(false, true));
+                let ctor: Vec<Value> = [(false, false), (true, false), (false, true), (true, true)]
+                    .iter()
+                    .map(|(a, b)| json!({"a": a, "b": b, "bits": [bytes_json(&word_of(types::$ty::new(*a, *b)).to_be_bytes())]}))
+                    .collect();
+                let span = hi - lo + 1;
+                let per = (span + threads - 1) / threads;
+                let results: Vec<(Vec<u32>, u64)> = std::thread::scope(|sc| {
+                    let mut hs = Vec::new();
+                    for t in 0..threads {
+                        let from = lo + t * per;
+                        let to = (from + per).min(hi + 1);
+                        hs.push(sc.spawn(move || {
+                            let mut bad: Vec<u32> = Vec::new();
+                            let mut n = 0u64;
+                            let mut w = from;
+                            let mut wr = VecWriter::new();        // one buffer per thread, not one per word
+                            while w < to {
+                                let word = w as u32;
+                                let bytes = word.to_be_bytes();
+                                let mut r = SliceReader::from(&bytes[..]);
+                                n += 1;
+                                match types::$ty::try_read(&mut r) {
+                                    Ok(x) => {
+                                        wr.data.clear();
+                                        AVP::$ty(x).write(&mut wr);
+                                        let k = wr.data.len();
+                                        let back = k >= 4 && wr.data[k - 4..] == bytes;
+                                        let ok = x.$first() == (word & wa != 0) && x.$second() == (word & wb != 0) && back;
+                                        if !ok && bad.len() < 8 {
+                                            bad.push(word);
+                                        }
+                                    }
+                                    Err(_) => {
+                                        if bad.len() < 8 {
+                                            bad.push(word);
+                                        }
+                                    }
+                                }
+                                w += 1;
+                            }
+                            (bad, n)
+                        }));
+                    }
+                    hs.into_iter().map(|h| h.join().unwrap_or((vec![0xdead_beef], 0))).collect()
+                });
+                let mut bad = Vec::new();
+                let mut n = 0u64;
+                for (b, k) in results {
+                    bad.extend(b);
+                    n += k;
+                }
+                bad.truncate(16);
+                Ok((ctor, bad, n))
+            }};
+        }
+        match kind.as_str() {
+            "FramingCapabilities" => go!(FramingCapabilities, is_async_framing_supported, is_sync_framing_supported),
+            "BearerCapabilities" => go!(BearerCapabilities, is_digital_access_supported, is_analog_access_supported),
+            "BearerType" => go!(BearerType, is_analog_request, is_digital_request),
+            "FramingType" => go!(FramingType, is_analog_request, is_digital_request),
+            other => Err(format!("not a bitmask kind: {other}")),
+        }
+    });
+    match o {
+        Ok(Ok((ctor, bad, n))) => {
+            ev.insert("out".into(), json!({"t": "ok"}));
+            ev.insert("ctor".into(), Value::Array(ctor));
+            ev.insert("bad".into(), json!(bad.iter().map(|w| bytes_json(&w.to_be_bytes())).collect::<Vec<_>>()));
+            // (the count is reported in two halves: the specification's integers are 32-bit)
+            ev.insert("tested_hi".into(), json!(n >> 16));
+            ev.insert("tested_lo".into(), json!(n & 0xffff));
+            let want = hi - lo + 1;
+            ev.insert("want_hi".into(), json!(want >> 16));
+            ev.insert("want_lo".into(), json!(want & 0xffff));
+        }
+        Ok(Err(e)) => {
+            ev.insert("out".into(), json!({"t": "err", "v": e}));
+        }
+        Err(p) => {
+            ev.insert("out".into(), p);
+        }
+    }
+    Ok(())
+}
+
 /// Display of a decode error (C20): the text, and its alphanumeric words
 fn op_render(c: &Value, ev: &mut Map<String, Value>) -> Result<(), String> {
     let e = err_from_json(&c["v"])?;
@@ -1276,6 +1412,7 @@ pub fn run_op(c: &Value, ev: &mut Map<String, Value>) -> Result<(), String> {
         "enum_map" => op_enum_map(c, ev),
         "enum_names" => op_enum_names(c, ev),
         "bitmask" => op_bitmask(c, ev),
+        "bitmask_sweep" => op_bitmask_sweep(c, ev),
         "render" => op_render(c, ev),
         "cursor" => op_cursor(c, ev),
         "vecwriter" => op_vecwriter(c, ev),
